@@ -360,6 +360,7 @@ fn main() {
                 VR::UN | VR::OB => Class::Un,
                 _ => Class::Text,
             });
+            let cur_f32 = cur_class == Some(Class::F32) || matches!(cur.map(|e| e.value()), Some(Value::Primitive(PrimitiveValue::F32(_))));
             let cur_is_seq = matches!(cur.map(|e| e.value()), Some(Value::Sequence(_)) | Some(Value::PixelSequence(_)));
             let cur_prim_nonempty = matches!(cur.map(|e| e.value()), Some(Value::Primitive(p)) if p.multiplicity() > 0);
             let cur_bytes = matches!(cur.map(|e| e.value()), Some(Value::Primitive(PrimitiveValue::U8(v))) if !v.is_empty());
@@ -447,19 +448,19 @@ fn main() {
                         }
                         match kind {
                             0 => {
-                                let n = small_int(&mut r, cur_class != Some(Class::F32)) as i32;
+                                let n = small_int(&mut r, !cur_f32) as i32;
                                 break (AttributeAction::PushI32(n), format!("pushnum i32 {n}"));
                             }
                             1 => {
-                                let n = small_int(&mut r, cur_class != Some(Class::F32)).unsigned_abs() as u32;
+                                let n = small_int(&mut r, !cur_f32).unsigned_abs() as u32;
                                 break (AttributeAction::PushU32(n), format!("pushnum u32 {n}"));
                             }
                             2 => {
-                                let n = small_int(&mut r, cur_class != Some(Class::F32)) as i16;
+                                let n = small_int(&mut r, !cur_f32) as i16;
                                 break (AttributeAction::PushI16(n), format!("pushnum i16 {n}"));
                             }
                             3 => {
-                                let n = small_int(&mut r, cur_class != Some(Class::F32)) as u16;
+                                let n = small_int(&mut r, !cur_f32) as u16;
                                 break (AttributeAction::PushU16(n), format!("pushnum u16 {n}"));
                             }
                             4 => {
